@@ -9,76 +9,144 @@
 (* fails at once.  (The slot life cycle itself - claims, retries, the       *)
 (* receive path - is PduLoop.tla; this is the view an application task      *)
 (* has.)                                                                    *)
+(*                                                                         *)
+(* What a task may do with a slot besides waiting for its response:         *)
+(*  - keep the response it received claimed while it goes on with further   *)
+(*    operations (CompleteHold / DropHeld): the code hands out the response *)
+(*    as a view into the slot (ReceivedPdu); the CoE client keeps the       *)
+(*    initiate response of a segmented upload for the whole transfer, an    *)
+(*    EEPROM chunk is such a view, too.  The slot keeps its index word.     *)
+(*  - give the operation up (Abandon): the future is dropped or its         *)
+(*    deadline passes.  The slot is free again at once, its index word      *)
+(*    stays what it was; the response, if it still comes, belongs to no one.*)
+(*                                                                         *)
+(* SentOnly = TRUE is the code: a response is routed to the slot that       *)
+(* carries its index *and* awaits a response.  FALSE: the first slot        *)
+(* carrying the index decides, whatever its state - the variant a held or   *)
+(* abandoned slot turns into lost responses once the index has wrapped.     *)
+(*                                                                         *)
+(* Environment assumption (WrapAssumption, part of BeginAt): the 8 bit      *)
+(* index does not come round to a value while a frame with that value is    *)
+(* still on the network.                                                    *)
 (***************************************************************************)
 EXTENDS Naturals, Integers, Sequences, FiniteSets, TLC
 
-CONSTANTS NTasks, Slots, Ops, IdxMod
+CONSTANTS NTasks, Slots, Ops, IdxMod,
+          MaxHeld,      \* responses a task may keep claimed at a time
+          Abandons,     \* BOOLEAN: operations may be given up
+          SentOnly      \* BOOLEAN: see above
 
 Task == 1..NTasks
 Slot == 1..Slots
 
-VARIABLES slot,       \* slot[f]: [busy, owner, idx, resp] - resp = <<>> until the response arrived
+VARIABLES slot,       \* slot[f]: [busy, owner, idx, resp, held] - resp = <<>> until the response arrived
           nextIdx,    \* the shared datagram index
           wire,       \* frames on the network: set of [idx, tag]
           pc,         \* pc[t]: "idle" | "wait"
-          done,       \* done[t]: results so far: the tag the task received, or NoSlot
-          full        \* ghost: storage occupancy seen when an operation failed for lack of a slot
-tkvars == <<slot, nextIdx, wire, pc, done, full>>
+          done,       \* done[t]: results so far: the tag the task received, NoSlot or Cancelled
+          full,       \* ghost: storage occupancy seen when an operation failed for lack of a slot
+          lost        \* ghost: responses that arrived while their operation was waiting and were not handed to it
+tkvars == <<slot, nextIdx, wire, pc, done, full, lost>>
 
 NoSlot == <<0, 0>>         \* the result of an operation that found no free slot
+Cancelled == <<0, 1>>      \* the result of an operation that was given up
+NoIdx == -1                \* the index word of a slot that was reset
 
-Free == [busy |-> FALSE, owner |-> 0, idx |-> 0, resp |-> <<>>]
+Free == [busy |-> FALSE, owner |-> 0, idx |-> NoIdx, resp |-> <<>>, held |-> FALSE]
 
 TkInit ==
-    /\ slot = [f \in Slot |-> Free]
+    /\ slot = [f \in Slot |-> [Free EXCEPT !.idx = 0]]       \* storage starts out zeroed
     /\ nextIdx = 0 /\ wire = {}
     /\ pc = [t \in Task |-> "idle"]
     /\ done = [t \in Task |-> <<>>]
-    /\ full = {}
+    /\ full = {} /\ lost = {}
 
 FreeSlots == {f \in Slot : ~slot[f].busy}
+Awaiting(f) == slot[f].busy /\ ~slot[f].held /\ slot[f].resp = <<>>
+HeldBy(t) == {f \in Slot : slot[f].busy /\ slot[f].held /\ slot[f].owner = t}
+
+WrapAssumption(ix) == \A fr \in wire : fr.idx # ix
 
 \* an operation starts in slot f with datagram index ix: the request is what only this task and this operation
 \* would send
 BeginAt(t, f, ix) ==
     /\ pc[t] = "idle" /\ Len(done[t]) < Ops /\ ~slot[f].busy
-    /\ slot' = [slot EXCEPT ![f] = [busy |-> TRUE, owner |-> t, idx |-> ix, resp |-> <<>>]]
+    /\ WrapAssumption(ix)
+    /\ slot' = [slot EXCEPT ![f] = [busy |-> TRUE, owner |-> t, idx |-> ix, resp |-> <<>>, held |-> FALSE]]
     /\ wire' = wire \cup {[idx |-> ix, tag |-> <<t, Len(done[t]) + 1>>]}
     /\ nextIdx' = (ix + 1) % IdxMod
     /\ pc' = [pc EXCEPT ![t] = "wait"]
-    /\ UNCHANGED <<done, full>>
+    /\ UNCHANGED <<done, full, lost>>
 
 \* ... or fails at once because every slot is taken
 NoSlotFor(t) ==
     /\ pc[t] = "idle" /\ Len(done[t]) < Ops /\ FreeSlots = {}
     /\ done' = [done EXCEPT ![t] = Append(@, NoSlot)]
     /\ full' = full \cup {Cardinality({f \in Slot : slot[f].busy})}
-    /\ UNCHANGED <<slot, nextIdx, wire, pc>>
+    /\ UNCHANGED <<slot, nextIdx, wire, pc, lost>>
 
 Begin(t) ==
     IF FreeSlots = {} THEN NoSlotFor(t)
     ELSE BeginAt(t, CHOOSE f \in FreeSlots : \A g \in FreeSlots : f <= g, nextIdx)
 
+\* the slot the receive side picks for a response with index ix (0 = none)
+Route(ix) ==
+    IF SentOnly
+    THEN IF \E f \in Slot : Awaiting(f) /\ slot[f].idx = ix
+         THEN CHOOSE f \in Slot : Awaiting(f) /\ slot[f].idx = ix /\ \A g \in Slot : (Awaiting(g) /\ slot[g].idx = ix) => f <= g
+         ELSE 0
+    ELSE IF \E f \in Slot : slot[f].idx = ix
+         THEN LET f == CHOOSE f \in Slot : slot[f].idx = ix /\ \A g \in Slot : slot[g].idx = ix => f <= g
+              IN IF Awaiting(f) THEN f ELSE 0
+         ELSE 0
+
 \* the network hands a response to the receive side, which routes it by its index
 Deliver(fr) ==
     /\ fr \in wire
     /\ wire' = wire \ {fr}
-    /\ IF \E f \in Slot : slot[f].busy /\ slot[f].idx = fr.idx /\ slot[f].resp = <<>>
-       THEN LET f == CHOOSE f \in Slot : slot[f].busy /\ slot[f].idx = fr.idx /\ slot[f].resp = <<>> IN
-            slot' = [slot EXCEPT ![f].resp = fr.tag]
-       ELSE UNCHANGED slot
+    /\ LET f == Route(fr.idx) IN
+       /\ IF f # 0 THEN slot' = [slot EXCEPT ![f].resp = fr.tag] ELSE UNCHANGED slot
+       /\ lost' = IF f = 0 /\ \E g \in Slot : Awaiting(g) /\ slot[g].idx = fr.idx /\ <<slot[g].owner, Len(done[slot[g].owner]) + 1>> = fr.tag
+                  THEN lost \cup {fr.tag} ELSE lost
     /\ UNCHANGED <<nextIdx, pc, done, full>>
 
+\* the task takes the response and lets go of the slot (the index word is reset)
 Complete(t) ==
     /\ pc[t] = "wait"
     /\ \E f \in Slot :
-        /\ slot[f].busy /\ slot[f].owner = t /\ slot[f].resp # <<>>
+        /\ slot[f].busy /\ ~slot[f].held /\ slot[f].owner = t /\ slot[f].resp # <<>>
         /\ done' = [done EXCEPT ![t] = Append(@, slot[f].resp)]
         /\ slot' = [slot EXCEPT ![f] = Free]
     /\ pc' = [pc EXCEPT ![t] = "idle"]
-    /\ UNCHANGED <<nextIdx, wire, full>>
+    /\ UNCHANGED <<nextIdx, wire, full, lost>>
 
-TkNext == (\E t \in Task : Begin(t) \/ Complete(t)) \/ (\E fr \in wire : Deliver(fr))
+\* ... or takes it and keeps the slot claimed as a view of the response
+CompleteHold(t) ==
+    /\ pc[t] = "wait" /\ Cardinality(HeldBy(t)) < MaxHeld
+    /\ \E f \in Slot :
+        /\ slot[f].busy /\ ~slot[f].held /\ slot[f].owner = t /\ slot[f].resp # <<>>
+        /\ done' = [done EXCEPT ![t] = Append(@, slot[f].resp)]
+        /\ slot' = [slot EXCEPT ![f].held = TRUE]
+    /\ pc' = [pc EXCEPT ![t] = "idle"]
+    /\ UNCHANGED <<nextIdx, wire, full, lost>>
+
+DropHeld(t, f) ==
+    /\ f \in HeldBy(t)
+    /\ slot' = [slot EXCEPT ![f] = Free]
+    /\ UNCHANGED <<nextIdx, wire, pc, done, full, lost>>
+
+\* the operation is given up, whether its response has arrived or not: the slot is free, its index word stays
+Abandon(t) ==
+    /\ Abandons /\ pc[t] = "wait"
+    /\ \E f \in Slot :
+        /\ slot[f].busy /\ ~slot[f].held /\ slot[f].owner = t
+        /\ slot' = [slot EXCEPT ![f] = [Free EXCEPT !.idx = slot[f].idx]]
+    /\ done' = [done EXCEPT ![t] = Append(@, Cancelled)]
+    /\ pc' = [pc EXCEPT ![t] = "idle"]
+    /\ UNCHANGED <<nextIdx, wire, full, lost>>
+
+TkNext == \/ \E t \in Task : Begin(t) \/ Complete(t) \/ CompleteHold(t) \/ Abandon(t) \/ \E f \in Slot : DropHeld(t, f)
+          \/ \E fr \in wire : Deliver(fr)
 TkSpec == TkInit /\ [][TkNext]_tkvars /\ WF_tkvars(TkNext)
 
 \* ---------------------------------------------------------------------------
@@ -86,16 +154,20 @@ TkSpec == TkInit /\ [][TkNext]_tkvars /\ WF_tkvars(TkNext)
 
 \* no task ever receives another task's (or another operation's) response
 OwnResponses ==
-    \A t \in Task : \A k \in 1..Len(done[t]) : done[t][k] = NoSlot \/ done[t][k] = <<t, k>>
+    \A t \in Task : \A k \in 1..Len(done[t]) : done[t][k] \in {NoSlot, Cancelled} \/ done[t][k] = <<t, k>>
 
 \* an operation fails for lack of a slot only when the storage is completely in use
 NoSpuriousFailure == \A n \in full : n = Slots
 
-\* with at least as many slots as tasks nothing fails at all
-NeverFailsWithEnoughSlots == Slots >= NTasks => \A t \in Task : \A k \in 1..Len(done[t]) : done[t][k] # NoSlot
+\* with a slot for everything every task can have claimed at a time nothing fails at all
+NeverFailsWithEnoughSlots ==
+    Slots >= NTasks * (1 + MaxHeld) => \A t \in Task : \A k \in 1..Len(done[t]) : done[t][k] # NoSlot
 
-\* indices of the frames in flight are distinct as long as the index space is larger than the storage
-DistinctInFlight == \A f, g \in Slot : (f # g /\ slot[f].busy /\ slot[g].busy) => slot[f].idx # slot[g].idx
+\* a response that arrives while its operation waits for it is handed to it, whatever the other slots hold
+NoResponseLost == lost = {}
+
+\* the slots awaiting a response carry distinct indices (what routing by index needs)
+DistinctInFlight == \A f, g \in Slot : (f # g /\ Awaiting(f) /\ Awaiting(g)) => slot[f].idx # slot[g].idx
 
 AllFinish == <>(\A t \in Task : Len(done[t]) = Ops)
 =============================================================================
